@@ -510,7 +510,6 @@ func lastLine(s string) string {
 	return trunc(s, 200)
 }
 
-
 // c10SameNamePairs: the one-keyword pairs without the pair that differs inside an anyOf list (folded together: KF-C14-4, C14's subject).
 func c10SameNamePairs() []SCase {
 	var out []SCase
